@@ -73,12 +73,20 @@ def ofVal : Val → Json
   | .nan => str "nan"
 
 /-- The test `json[k] in ("nan", "inf", "-inf") or isinstance(json[k], numbers.Real)` followed by
-`float(...)`.  JSON booleans are rejected here (the code accepts them: DESIGN §9, finding 18). -/
+`float(...)`.  A JSON boolean passes it (`bool` is a `numbers.Real` in Python) and reads as 1/0; the
+model mirrors that leniency (DESIGN §9, finding 18). -/
 def toVal? : Json → Option Val
   | num q => some (.fin q)
+  | bool b => some (.fin (if b then 1 else 0))
   | str "nan" => some .nan
   | str "inf" => some .pinf
   | str "-inf" => some .ninf
+  | _ => none
+
+/-- a finite number (structural parameters of the model are rationals); a boolean reads as 1/0 -/
+def toRat? : Json → Option Rat
+  | num q => some q
+  | bool b => some (if b then 1 else 0)
   | _ => none
 
 /-- Optional string field: absent or `null` is `none`; a string is `some`; anything else is a
